@@ -653,3 +653,13 @@ mod tests {
         assert_eq!(encoder.on_decoder_recv(&mut cur), Ok(()));
     }
 }
+
+#[cfg(feature = "verif-hooks")]
+impl Encoder {
+    pub fn verif_from_table(table: DynamicTable) -> Self {
+        Self { table }
+    }
+    pub fn verif_table(&mut self) -> &mut DynamicTable {
+        &mut self.table
+    }
+}
